@@ -64,6 +64,34 @@ def audit_axioms(theorems: list[str], imports: list[str], timeout=1200):
     return res, text
 
 
+def pv_closure(targets: list[str]) -> list[str]:
+    """the project's own modules that `targets` import, transitively (import lines of the sources)"""
+    seen: list[str] = []
+    todo = [t for t in targets if t.startswith("PV")]
+    while todo:
+        m = todo.pop()
+        if m in seen:
+            continue
+        path = os.path.join(LEAN, *m.split(".")) + ".lean"
+        if not os.path.exists(path):
+            continue
+        seen.append(m)
+        with open(path) as f:
+            for line in f:
+                mm = re.match(r"\s*(?:public\s+)?import\s+(PV[\w.]*)", line)
+                if mm:
+                    todo.append(mm.group(1))
+    return sorted(seen)
+
+
+def leanchecker(modules: list[str], timeout=3000):
+    """independent re-check of the compiled modules by the toolchain's `leanchecker`.
+    Returns (ok, log)."""
+    pr = subprocess.run(["lake", "env", "leanchecker", *modules], cwd=LEAN, capture_output=True,
+                        text=True, timeout=timeout)
+    return pr.returncode == 0, (pr.stdout + pr.stderr)[-2000:]
+
+
 FORBIDDEN = re.compile(
     r"\b(sorry|admit|native_decide|bv_decide|implemented_by)\b|^\s*axiom\s|\bunsafe\s|maxHeartbeats 0")
 
